@@ -874,6 +874,10 @@ func (f *frame) typeAssert(x *ssa.TypeAssert, st *bstate) {
 	} else {
 		ok = fmt.Sprintf("(= (i_tag %s) %d)", v.T, vc.tagOf(x.AssertedType))
 		res = f.unboxIface(v.T, x.AssertedType)
+		// re-boxing the extracted value gives the same interface value
+		if bx, _ := f.boxFns(res.S); !(res.S == "Int" && isPointerType(x.AssertedType)) {
+			f.assume(st, implies(ok, eq("("+bx+" "+res.T+")", "(i_box "+v.T+")")))
+		}
 	}
 	if x.CommaOk {
 		okc := vc.define(f.id+x.Name()+".ok", "Bool", ok)
@@ -1159,4 +1163,9 @@ func escapeSites(a ssa.Value) (sites []ssa.Instruction, ok bool) {
 	}
 	walk(a)
 	return sites, ok
+}
+
+func isPointerType(t types.Type) bool {
+	_, ok := t.Underlying().(*types.Pointer)
+	return ok
 }
